@@ -53,6 +53,31 @@ def fold_cfg(text, arch, osname):
     return text
 
 
+def strip_extern_blocks(text):
+    """Remove `extern "C" { ... }` / `extern "system" { ... }` blocks (and a preceding #[link])."""
+    out = []
+    i = 0
+    n = 0
+    pat = re.compile(r'(?:#\[link[^\]]*\]\s*)?(?:unsafe\s+)?extern\s+"[A-Za-z-]+"\s*\{')
+    while True:
+        m = pat.search(text, i)
+        if not m:
+            out.append(text[i:])
+            break
+        out.append(text[i:m.start()])
+        depth = 1
+        j = m.end()
+        while j < len(text) and depth > 0:
+            if text[j] == "{":
+                depth += 1
+            elif text[j] == "}":
+                depth -= 1
+            j += 1
+        i = j
+        n += 1
+    return "".join(out), n
+
+
 def strip_doc(text):
     # doc comments may contain doctests / cfg-looking text; they are irrelevant to behaviour.
     out = []
@@ -131,7 +156,15 @@ def generate(name):
             with open(full, "r") as f:
                 text = f.read()
             if kind == "sim" and fn in SHIM_MODULES and rel.startswith("injector_core"):
-                text = "#![allow(unused_imports)]\n" + SHIM_MODULES[fn]
+                # the foreign functions come from the simulated OS; everything else the file
+                # defines (constants, structs, helpers) is transplanted like any other source
+                body, n_ext = strip_extern_blocks(text)
+                if n_ext == 0:
+                    die("%s: no extern block found in %s (OS seam anchor missing)" % (name, rel))
+                body = rewrite_sim(rel, body, arch, osname, counts)
+                inner = [l for l in body.split("\n") if l.startswith("#![")]
+                rest = [l for l in body.split("\n") if not l.startswith("#![")]
+                text = "\n".join(inner) + "\n#![allow(unused_imports)]\n" + SHIM_MODULES[fn] + "\n".join(rest) + "\n"
             elif kind == "sim":
                 text = rewrite_sim(rel, text, arch, osname, counts)
             else:
